@@ -81,10 +81,13 @@ class Disconnection:
        self._remove_backreference(ref[i], k)
 
   def _disconnect_dependent_line(self, ref):
+    # note: a dependent line may have been already disconnected by the
+    #       disconnection of another dependent line (e.g. a group of a group)
     if isinstance(ref, gfapy.Line):
-      ref.disconnect()
+      if ref.is_connected():
+        ref.disconnect()
     elif isinstance(ref, gfapy.OrientedLine):
-      if isinstance(ref.line, gfapy.Line):
+      if isinstance(ref.line, gfapy.Line) and ref.line.is_connected():
         ref.line.disconnect()
     elif isinstance(ref, list):
       for i in range(len(ref)):
@@ -104,7 +107,7 @@ class Disconnection:
 
   def _disconnect_dependent_lines(self):
     for k in self.__class__.DEPENDENT_LINES:
-      for ref in self._refs.get(k, []):
+      for ref in list(self._refs.get(k, [])):
         self._disconnect_dependent_line(ref)
 
   def _remove_nonfield_backreferences(self):
